@@ -1,6 +1,6 @@
 // Component types of the schema
 //
-//     ecs_world! { ecs_name!(WorldS); #[archetype_id(7)] ecs_archetype!(ArchA, CompX, CompY);  ecs_archetype!(ArchB, CompX, CompZ); }
+//     ecs_world! { ecs_name!(WorldS); #[archetype_id(7)] ecs_archetype!(ArchA, CompX, CompY); #[archetype_id(3)] ecs_archetype!(ArchB, CompX, CompZ); }
 //
 // They are opaque: nothing is known about them except that they are Clone with an arbitrary (unspecified) clone, so whatever is
 // proved about the generated code holds for any component types.
